@@ -860,7 +860,11 @@ def describe(d):
 
 
 def run(ctx):
-    ok, log = ctx.prove()
+    ok, log = ctx.prove(extra_targets=["model/C05Cases.vo"])
+    proof_rep = {"log": log[-3000:], "no_failing_input_found": True, "broken": "theorems of props/C05.v"}
+    if not ok:
+        ctx.violation({"kind": "proof-broken"}, "props/C05.v or its closure no longer compiles "
+                      "(a changed table breaks c05_default_sets / c05_tables_consistent / c05_none)", proof_rep)
     from joserfc import jws, jwe, jwt  # noqa: F401
     K = Keys(ctx.rng)
     pristine = Pristine(K)              # forked before any registry API call of this process
@@ -922,6 +926,8 @@ def run(ctx):
         v = run_call(d)
         ctx.note_case(key_of(d), nontrivial=True)
         dist[d["op"]] = dist.get(d["op"], 0) + 1
+        if v[0] != "err":
+            dist["ok:" + d["op"]] = dist.get("ok:" + d["op"], 0) + 1
         dist["verdict:" + (v[1] if v[0] == "err" else "ok")] = dist.get("verdict:" + (v[1] if v[0] == "err" else "ok"), 0) + 1
         cases.append("Hist false [%s] [%s]" % (c_call(d), c_verdict_for(d, v)))
         meta.append(("call", d, v))
@@ -1042,17 +1048,13 @@ def run(ctx):
             sig = {"kind": "correspondence", "op": m[0]}
             text = "model and implementation disagree on %s %r" % (m[0], m[1:])
             rep = {"case": cases[i][:2000]}
-        rep["no_failing_input_found"] = direct_n == 0
+        rep["no_failing_input_found"] = (direct_n - (0 if ok else 1)) == 0
         rep["broken"] = "correspondence model/C05Cases.v:c05_check vs joserfc registries / entry points"
         ctx.violation(sig, text, rep)
     for si, err in res["errors"]:
         ctx.violation({"kind": "correspondence-error"}, "coqc failed on a generated case file",
                       {"output": err, "no_failing_input_found": True, "broken": "case evaluation"})
-    if not ok:
-        ctx.violation({"kind": "proof-broken"}, "props/C05.v or its closure no longer compiles "
-                      "(a changed table breaks c05_default_sets / c05_tables_consistent / c05_none)",
-                      {"log": log[-3000:], "no_failing_input_found": direct_n == 0 and not res["failing"],
-                       "broken": "theorems of props/C05.v"})
+    proof_rep["no_failing_input_found"] = (direct_n - (0 if ok else 1)) == 0 and not res["failing"]
     ctx.notes.append("candidate (not raised): algorithms=[] / JWSRegistry(algorithms=[]) behave like None "
                      "(recommended set usable); reading (A) of 'explicit list' would make this a violation")
     ctx.assumptions += [
